@@ -211,4 +211,156 @@ def rule_e(ctx: Ctx) -> None:
     patterns_slot(ctx, 'C19.e')
 
 
-RULES = [rule_a, rule_b, rule_c, rule_d, rule_e]
+REF_MIRROR_EXEMPT = {
+    'name': 'set by _parse_reference() itself',
+    '_block': 'read only through the `block` property, which delegates to self.ref',
+    '_final': 'read only through the `final` property, which delegates to self.ref',
+    'min_occurs': 'occurrences belong to the particle, not to the declaration', 'max_occurs': 'occurrences belong to the particle, not to the declaration',
+    '_built': 'build flag', 'selected_by': 'assigned by _parse() for every element and shared in the reference branch',
+}
+
+
+def rule_f(ctx: Ctx) -> None:
+    """A reference particle validates like the declaration it refers to.  _parse() runs the declaration parsers (_parse_type,
+    _parse_constraints, …) only when `self.ref is None`; for <xs:element ref="…"/> the reference branch of _parse_attributes is the
+    only place where the slots those parsers would fill are given a value, so it has to copy every one of them that validation reads."""
+    rule = 'C19.f'
+    n = 0
+    for cq in ('xmlschema.validators.elements.XsdElement', 'xmlschema.validators.elements.Xsd11Element'):
+        c = ctx.idx.cls(cq)
+        pa = c.find_method('_parse_attributes')
+        pr = c.methods.get('_parse') or c.find_method('_parse')
+        if pa is None or pr is None:
+            raise AnalysisError(f'missing anchor {cq}._parse/_parse_attributes')
+        # (1) declaration parsers: called from _parse under `self.ref is None`
+        g = cfg_of(ctx, pr)
+        decl = []
+        for nd, cl in call_nodes(g, lambda cl: text(cl.func).startswith('self._parse_')):
+            if ('self.ref is None', 'T') in guards(ctx, pr, nd):
+                decl.append(text(cl.func).split('.')[-1])
+        ctx.floor(rule, f'{c.name}: declaration parsers run only for non-references', len(decl), 2)
+        filled = {}
+        for nm_ in decl:
+            m = c.find_method(nm_)
+            if m is None:
+                continue
+            for x in walk_no_nested(m.node):
+                tg = []
+                if isinstance(x, ast.Assign):
+                    tg = x.targets
+                elif isinstance(x, (ast.AugAssign, ast.AnnAssign)):
+                    tg = [x.target]
+                for t in tg:
+                    if isinstance(t, ast.Attribute) and text(t.value) == 'self':
+                        filled.setdefault(t.attr, m.name)
+            for cl in calls(m.node):
+                if text(cl.func) == 'self._set_type':
+                    filled.setdefault('type', m.name)
+        # the non-reference part of _parse_attributes (after the reference branch returned)
+        g2 = cfg_of(ctx, pa)
+        refs = [x for x in g2.nodes if x.kind == 'if' and text(x.ast.test) == 'self._parse_reference()']
+        if len(refs) != 1:
+            raise AnalysisError(f'{rule}: expected `if self._parse_reference():` in {pa.qualname}')
+        from .common import reach_cut
+        nonref = reach_cut(g2, [m for m, lab in g2.succ[refs[0]] if lab == 'F'], set(), kinds='nTF')
+        refpart = reach_cut(g2, [m for m, lab in g2.succ[refs[0]] if lab == 'T'], set(), avoid=[x for x in nonref if x.kind not in ('exit',)], kinds='nTF')
+        for x in nonref:
+            if x.kind == 'stmt' and isinstance(x.ast, ast.Assign):
+                for t in x.ast.targets:
+                    if isinstance(t, ast.Attribute) and text(t.value) == 'self':
+                        filled.setdefault(t.attr, '_parse_attributes')
+        copied = set()
+        for x in refpart:
+            if x.kind == 'stmt' and isinstance(x.ast, ast.Assign) and isinstance(x.ast.value, ast.Attribute) and text(x.ast.value.value) == 'xsd_element':
+                for t in x.ast.targets:
+                    if isinstance(t, ast.Attribute) and text(t.value) == 'self' and t.attr == x.ast.value.attr:
+                        copied.add(t.attr)
+            if x.kind == 'stmt' and isinstance(x.ast, ast.Expr) and isinstance(x.ast.value, ast.Call) and text(x.ast.value.func) == 'self._set_type' \
+                    and x.ast.value.args and text(x.ast.value.args[0]) == 'xsd_element.type':
+                copied.add('type')
+        # (2) slots that validation reads on self
+        read = set()
+        for m in c.mro_methods() if hasattr(c, 'mro_methods') else []:
+            pass
+        val_methods = [m for k_ in c.mro() for m in k_.methods.values()
+                       if m.name in ('raw_decode', 'raw_encode', 'iter_decode', 'iter_encode', 'collect_key_fields', 'get_type', 'check_dynamic_context', 'data_value',
+                                     'is_matching', 'match', 'is_restriction', 'is_consistent', 'is_overlap', 'iter_substitutes', 'get_attributes', 'text_decode',
+                                     'has_fixed_value', 'get_binding', 'is_substitute', 'match_child', 'get_alternative_type')]
+        for m in val_methods:
+            for x in ast.walk(m.node):
+                if isinstance(x, ast.Attribute) and isinstance(x.ctx, ast.Load) and text(x.value) == 'self':
+                    read.add(x.attr)
+        for slot, where in sorted(filled.items()):
+            if slot in REF_MIRROR_EXEMPT:
+                continue
+            if slot not in read:
+                continue
+            n += 1
+            ok = slot in copied
+            ctx.ob(rule, f'{c.name}: the slot `{slot}` (filled by {where} for a declaration, read by validation) is copied from the referenced element', pa.loc(refs[0].ast), ok,
+                   '' if ok else f'the reference branch of _parse_attributes does not assign self.{slot} = xsd_element.{slot}: <xs:element ref="…"/> particles validate with the class '
+                   f'default of `{slot}` - e.g. a global element declared with fixed="1.0" and used by reference accepts any value, the damaged document is reported valid',
+                   key=f'{c.name}|ref-mirror|{slot}')
+    ctx.floor(rule, 'declaration slots mirrored by reference particles', n, 8)
+    ctx.explain('C19.f: slots assigned by the declaration parsers that _parse() runs only under `self.ref is None` (and by the non-reference part of _parse_attributes), '
+                'intersected with the slots the validation methods read on self, must all be copied from `xsd_element` in the reference branch.')
+
+
+def rule_g(ctx: Ctx) -> None:
+    """The path of an error selects the element in the document *under the namespace map reported with it*.  An unprefixed step is
+    resolved with the default namespace of that map, so the step for an element in no namespace is only right when the map has no
+    default namespace - the code that writes the step has to look at `namespaces['']`."""
+    rule = 'C19.g'
+    gp = ctx.idx.func('xmlschema.utils.etree.etree_getpath')
+    pq = ctx.idx.func('xmlschema.utils.qnames.get_prefixed_qname')
+    ctx.analysed(gp.qualname)
+    ctx.analysed(pq.qualname)
+    steps = [c for c in calls(gp.node) if text(c.func) == 'get_prefixed_qname' and len(c.args) >= 2 and text(c.args[1]) == 'namespaces']
+    ctx.floor(rule, 'path steps written through get_prefixed_qname', len(steps), 2)
+    g = cfg_of(ctx, pq)
+    # exits of get_prefixed_qname that hand back a name without a namespace untouched
+    bare = []
+    for r in g.nodes:
+        if r.kind == 'return' and r.ast.value is not None and text(r.ast.value) == 'qname':
+            gs = guards(ctx, pq, r)
+            if any("qname[0] != '{'" in t and lab == 'T' for t, lab in gs):
+                knows_default = any(("namespaces.get('')" in t or "'' in namespaces" in t or "namespaces['']" in t) for t, _ in gs)
+                bare.append((r, knows_default))
+    handled_in_caller = any("namespaces.get('')" in text(x) or "'' in namespaces" in text(x) for x in ast.walk(gp.node) if isinstance(x, (ast.If, ast.IfExp)))
+    ok = bool(bare) and (all(k for _, k in bare) or handled_in_caller)
+    ctx.ob(rule, 'etree_getpath: the step of an element in no namespace takes the default namespace of the reported map into account', gp.loc(steps[0]) if steps else gp.loc(), ok,
+           '' if ok else f'get_prefixed_qname returns a name without namespace unchanged (line {bare[0][0].lineno if bare else 0}) whatever `namespaces` maps "" to, and etree_getpath '
+           'does not look either: for <root xmlns="urn:A"><child xmlns="">bad</child></root> the error path is /root/child with namespaces {"": "urn:A"}, which selects nothing',
+           key='etree_getpath|no-namespace-step-under-default-namespace')
+    ctx.explain('C19.g: the no-namespace exit of get_prefixed_qname (guard `qname[0] != \'{\'`) and its caller etree_getpath are searched for a test of the default namespace of the map.')
+
+
+def rule_h(ctx: Ctx) -> None:
+    """Errors found after the walk (dangling IDREF, unresolved keyref) are about a particular node too.  Reported with the document
+    root as their element, they are located outside "the damaged node or its parent"."""
+    rule = 'C19.h'
+    n = 0
+    for f in ctx.idx.iter_functions('validators'):
+        if isinstance(f.node, ast.Lambda):
+            continue
+        for c in calls(f.node):
+            if not is_reporter_call(c, None) and not is_reporter_call(c):
+                continue
+            objs = [text(a) for a in c.args[3:4]] + [text(k.value) for k in c.keywords if k.arg in ('obj', 'elem')]
+            if not any(o.endswith('source.root') for o in objs):
+                continue
+            n += 1
+            what = 'IDREF' if 'IDREF' in text(f.node) and any('id_map' in text(x) for x in ast.walk(f.node) if isinstance(x, ast.For) and any(y is c for y in ast.walk(x))) else 'keyref'
+            if what == 'keyref':
+                # reached only for counters still enabled after the walk: lazy runs, whose trees are pruned (explored separately by the property)
+                ctx.ob(rule, f'{f.qualname.split(".", 2)[-1]}: the keyref report after the walk concerns lazy runs only', f.loc(c),
+                       'counter.enabled' in text(f.node), '', key=f'{f.qualname}|after-walk-at-root|keyref', nontrivial=False)
+                continue
+            ctx.ob(rule, f'{f.qualname.split(".", 2)[-1]}: the {what} error found after the walk is located at the node it is about', f.loc(c), False,
+                   f'`{text(c)[:90]}` reports at the document root: the table consulted after the walk keeps values, not the referencing elements - a single bad {what} value deep in the '
+                   'document yields one error at "/root" and none at the damaged node or its parent', key=f'{f.qualname}|after-walk-at-root|{what}')
+    ctx.floor(rule, 'after-walk reports located at the document root', n, 0)
+    ctx.explain('C19.h: reporter calls whose element argument is `context.source.root` (reports issued after the walk).')
+
+
+RULES = [rule_a, rule_b, rule_c, rule_d, rule_e, rule_f, rule_g, rule_h]
